@@ -57,6 +57,35 @@ def stage(ctx, plans):
     return named, found
 
 
+def race(ctx, named):
+    """Recorded-trace validation of a run whose interleaving TLC does not choose: clients read their entries from several goroutines at
+    the very tick at which the entries have become idle (reads not logged, not judged), then stay away; CacheTrace holds the final
+    gauges and reads against the abstract cache, which is empty by then."""
+    out, tr = ctx.path("out-race.json"), ctx.path("trace-race.ndjson")
+    rounds = 8 if ctx.tier == "quick" else 120
+    rc, txt, wall = ctx.go_test("c12", run="TestPeekRace", env={"VERIF_OUT": out, "VERIF_TRACE_OUT": tr, "VERIF_RACE_ROUNDS": str(rounds),
+                                                                 "VERIF_RACE_SOURCES": str(400 + 37 * (ctx.seed % 7))}, timeout=3000)
+    if rc != 0 or not os.path.exists(out):
+        sig = vlib.crash_attribution(txt)
+        if sig:
+            ctx.violation("crash:" + sig[0], ctx.save_replay("crash", {"output": sig[1]}), "the instance cache crashed under concurrent reads: " + sig[0])
+            return
+        raise vlib.MachineryError("harness c12 TestPeekRace failed (rc=%d)\n%s" % (rc, txt[-3000:]))
+    r = vlib.read_results(out)
+    v = ctx.tlc_validate("CacheTrace", "CacheTrace.cfg", tr, r["traces"], label="peek-race", timeout=3000)
+    ctx.cov["evaluations"] += r["evaluations"]
+    ctx.cov["distinct_nontrivial"] += r["distinct_nontrivial"]
+    ctx.cov["traces_validated_against_impl"] += r["evaluations"]
+    for k, n in r["named"].items():
+        named[k] = named.get(k, 0) + n
+    if v.violated:
+        lines = open(tr).read().splitlines()
+        tail = [json.loads(x) for x in lines[max(0, v.line - 12):v.line]]
+        keep = ctx.save_replay(v.bad.split("(")[0] + "-race", {"clause": v.bad, "trace_line": v.line, "last_events": tail,
+                                                                "driver": "harness/c12 TestPeekRace (reads racing with the eviction tick)"})
+        ctx.violation(v.bad, keep, "CacheProp clause %s broken after reads raced with eviction ticks, trace line %d: %s" % (v.bad, v.line, lines[v.line - 1][:300]))
+
+
 def run(ctx):
     # R1: the cache + dispatcher model composed with the monitor
     for lim, mt, ms in ([(2, 9, 2), (1, 6, 3)] if ctx.tier == "quick" else [(2, 9, 3), (1, 9, 3), (3, 12, 3)]):
@@ -71,7 +100,8 @@ def run(ctx):
     named, found = stage(ctx, plans)
     for clause, keep, desc in found:
         ctx.violation(clause, keep, desc)
-    for need in ("tick", "emit", "outcome:error", "outcome:partial", "outcome:errpartial", "outcome:empty"):
+    race(ctx, named)
+    for need in ("peek-race-round", "tick", "emit", "outcome:error", "outcome:partial", "outcome:errpartial", "outcome:empty"):
         if named.get(need, 0) == 0 and not (ctx.violations or locals().get("fails")):  # no vacuity verdict once something was found
             raise vlib.MachineryError("vacuity: %s never reached" % need)
     ctx.cov["named_situations"] = named
